@@ -316,7 +316,6 @@ func c21L2Report(c *kit.Ctx, o *l2Outcome, prefix string, ds []c21Diff, height u
 	}
 }
 
-
 var _ = common.EmptyHash
 
 // l2ReportStop: node A did not reach the end of the recorded chain although the
